@@ -44,6 +44,7 @@ const c19PanicMarker = "Panic recovered in HTTP handler" // middleware.go: "CRIT
 type c19LogCapture struct {
 	mu     sync.Mutex
 	panics []string
+	where  []string // "METHOD path" of the request each record belongs to (parallel to panics)
 }
 
 func (h *c19LogCapture) Enabled(_ context.Context, l slog.Level) bool { return l >= slog.LevelError }
@@ -51,18 +52,23 @@ func (h *c19LogCapture) Handle(_ context.Context, r slog.Record) error {
 	if !strings.Contains(r.Message, c19PanicMarker) {
 		return nil
 	}
-	var perr, stack string
+	var perr, stack, method, path string
 	r.Attrs(func(a slog.Attr) bool {
 		switch a.Key {
 		case "error":
 			perr = fmt.Sprint(a.Value.Any())
 		case "stack":
 			stack = a.Value.String()
+		case "method":
+			method = a.Value.String()
+		case "path":
+			path = a.Value.String()
 		}
 		return true
 	})
 	h.mu.Lock()
 	h.panics = append(h.panics, perr+" @ "+c19StackTop(stack))
+	h.where = append(h.where, method+" "+path)
 	h.mu.Unlock()
 	return nil
 }
@@ -73,6 +79,16 @@ func (h *c19LogCapture) count() int {
 	h.mu.Lock()
 	defer h.mu.Unlock()
 	return len(h.panics)
+}
+
+// lastWhere names the request ("METHOD path") of the latest recovery record.
+func (h *c19LogCapture) lastWhere() string {
+	h.mu.Lock()
+	defer h.mu.Unlock()
+	if len(h.where) == 0 {
+		return ""
+	}
+	return h.where[len(h.where)-1]
 }
 func (h *c19LogCapture) last() string {
 	h.mu.Lock()
